@@ -65,7 +65,7 @@ func (m *memoryStore) GetTokenResponse(ctx context.Context, sessionID string) (*
 	m.mu.Lock()
 	defer m.mu.Unlock()
 
-	s := m.sessions[sessionID]
+	s := m.liveSession(sessionID)
 	if s == nil {
 		return nil, nil
 	}
@@ -92,7 +92,7 @@ func (m *memoryStore) GetAuthorizationState(ctx context.Context, sessionID strin
 	m.mu.Lock()
 	defer m.mu.Unlock()
 
-	s := m.sessions[sessionID]
+	s := m.liveSession(sessionID)
 	if s == nil {
 		return nil, nil
 	}
@@ -109,7 +109,7 @@ func (m *memoryStore) ClearAuthorizationState(ctx context.Context, sessionID str
 	m.mu.Lock()
 	defer m.mu.Unlock()
 
-	if s := m.sessions[sessionID]; s != nil {
+	if s := m.liveSession(sessionID); s != nil {
 		s.accessed = m.clock.Now()
 		s.authorizationState = nil
 	}
@@ -163,7 +163,7 @@ func (m *memoryStore) set(ctx context.Context, sessionID string, setter func(s *
 	m.mu.Lock()
 	defer m.mu.Unlock()
 
-	s := m.sessions[sessionID]
+	s := m.liveSession(sessionID)
 	if s != nil {
 		s.accessed = m.clock.Now()
 		setter(s)
@@ -174,6 +174,23 @@ func (m *memoryStore) set(ctx context.Context, sessionID string, setter func(s *
 	}
 
 	log.Debug("updating last access", "accessed", s.accessed)
+}
+
+// liveSession returns the session with the given ID, or nil if there is none or it has outlived the
+// absolute or the idle timeout, in which case it is removed. Nothing schedules RemoveAllExpired, so the
+// timeouts have to be enforced whenever a session is accessed. The caller must hold the lock.
+func (m *memoryStore) liveSession(sessionID string) *session {
+	s := m.sessions[sessionID]
+	if s == nil {
+		return nil
+	}
+	now := m.clock.Now()
+	if (m.absoluteSessionTimeout > 0 && s.added.Add(m.absoluteSessionTimeout).Before(now)) ||
+		(m.idleSessionTimeout > 0 && s.accessed.Add(m.idleSessionTimeout).Before(now)) {
+		delete(m.sessions, sessionID)
+		return nil
+	}
+	return s
 }
 
 // session holds the data of a session stored in the in-memory cache
